@@ -210,7 +210,11 @@ def run_exact(case, res):
         bump(res, 'user_fn_args_checked')
     mode = 'full' if case['full'] else 'arrays'
     try:
-        out = EoN.fast_nonMarkov_SIS(G, initial_infecteds=[lab(i) for i in case['I0']], tmin=tmin, tmax=tmax, return_full_data=case['full'], **kw)
+        I0arg = [lab(i) for i in case['I0']]
+        if len(I0arg) == 1 and seed % 2:
+            I0arg = I0arg[0]           # 'node or iterable of nodes': a single node (whatever its label type: tuple, str, frozenset ...)
+            bump(res, 'single_node_initial_infecteds')
+        out = EoN.fast_nonMarkov_SIS(G, initial_infecteds=I0arg, tmin=tmin, tmax=tmax, return_full_data=case['full'], **kw)
     except Exception as e:
         viol(res, 'fast_nonMarkov_SIS|%s|exception:%s' % (mode, simcase.exc_key(e)), {'err': repr(e)})
         return
